@@ -45,6 +45,12 @@ def gen_cases(tier, seed):
     for wt in ("rhf", "uhf"):
         for mode in (("reverse",) if q else ("reverse", "forward")):
             cases.append({"type": "driverobs", "wt": wt, "ad_mode": mode, "s": int(rng.integers(1 << 30)), "group": "drvobs-%s-%s" % (wt, mode), "cost": 50})
+    # symmetric lattice Hamiltonians: exactly degenerate one-body levels, an observable that couples them (entry points without orbital
+    # relaxation: the derivative then flows through the propagation intermediates only)
+    for wt in ("rhf", "uhf"):
+        for entry in (("ad_norot",) if q else ("ad_norot", "ad_nosr_norot")):
+            cases.append({"type": "ringderiv", "wt": wt, "entry": entry, "shape": [3, 2, 2], "dt": 0.02, "s": int(rng.integers(1 << 30)),
+                          "group": "ring-%s-%s" % (wt, entry), "cost": 50})
     # lattice-type two-body terms (site-diagonal, symmetry-equivalent sites => exactly tied pivots in the re-decomposition of the ERI tensor)
     for wt in (("rhf", "uhf") if q else ("rhf", "uhf", "rhf", "uhf")):
         cases.append({"type": "rdm2site", "wt": wt, "shape": [2, 1, 2], "dt": 0.02, "s": int(rng.integers(1 << 30)),
@@ -135,6 +141,64 @@ def run_driverobs(case):
                             key + "/rdm1", shape=list(rdm.shape), trace=[float(np.trace(rdm[0])), float(np.trace(rdm[1]))], nelec=[na, nb]))
     return {"events": events, "nontrivial": True, "sample": {"wt": wt, "ad_mode": case["ad_mode"], "observable_column": rows[:, 2].tolist(), "exact": resp},
             "counters": {"vjp_calls": 0, "jvp_calls": 0, "one_body_limit": 0, "driver_observable_runs": 1}}
+
+
+def run_ringderiv(case):
+    import jax
+    import jax.numpy as jnp
+    from jax import random
+
+    from ad_afqmc import hamiltonian, propagation, sampling, wavefunctions
+
+    rng = np.random.default_rng(case["s"])
+    wt = case["wt"]
+    n = 4
+    hop = np.zeros((n, n))
+    for i in range(n):
+        hop[i, (i + 1) % n] = hop[(i + 1) % n, i] = -1.0
+    u = float(rng.choice([1.0, 2.0]))
+    chol = np.zeros((n, n, n))
+    for g in range(n):
+        chol[g, g, g] = np.sqrt(u)
+    ne = (1, 1)
+    w_, v_ = np.linalg.eigh(hop)   # levels -2, 0, 0, 2
+    if wt == "rhf":
+        trial = wavefunctions.rhf(n, ne)
+        wd = {"mo_coeff": jnp.array(v_[:, :1])}
+        prop = propagation.propagator_restricted(dt=case["dt"], n_walkers=NWALK)
+    else:
+        trial = wavefunctions.uhf(n, ne)
+        wd = {"mo_coeff": [jnp.array(v_[:, :1]), jnp.array(v_[:, :1])]}
+        prop = propagation.propagator_unrestricted(dt=case["dt"], n_walkers=NWALK)
+    wd["rdm1"] = trial.get_rdm1(wd)
+    ham = hamiltonian.hamiltonian(n)
+    hd = trials.ham_data_of(0.0, np.array([hop, hop]), chol.reshape(n, -1))
+    hd = ham.build_measurement_intermediates(hd, trial, wd)
+    hd = ham.build_propagation_intermediates(hd, prop, trial, wd)
+    S = {"trial": trial, "wave_data": wd, "norb": n, "nelec": ne}
+    w0 = afqmc.noisy_walkers(rng, S, NWALK, noise=0.15, walker_type=wt)
+    pd = prop.init_prop_data(trial, wd, hd, w0)
+    pd["key"] = random.PRNGKey(case["s"] % 65521)
+    smp = sampling.sampler(n_prop_steps=case["shape"][0], n_ene_blocks=case["shape"][1], n_sr_blocks=case["shape"][2], n_blocks=1)
+    fn = _fn(case["entry"], smp)
+    O = rng.normal(size=(n, n))
+    O = (O + O.T) / 2
+    Oj = jnp.array(np.array([O, O]))
+    wrapper = lambda x, y, z: fn(ham, hd, x, y, prop, z, trial, wd)
+    ptan = _tangent(pd)
+    e0, d0, _ = jax.jvp(wrapper, (0.0, Oj, afqmc.copy_pd(pd)), (1.0, 0.0 * Oj, ptan), has_aux=True)
+    fds = {}
+    for eps in (1e-3, 2e-4):
+        ep, _ = wrapper(eps, Oj, afqmc.copy_pd(pd))
+        em, _ = wrapper(-eps, Oj, afqmc.copy_pd(pd))
+        fds[eps] = (float(ep) - float(em)) / (2 * eps)
+    fds["richardson"] = (25.0 * fds[2e-4] - fds[1e-3]) / 24.0
+    best = min(abs(v - float(d0)) for v in fds.values())
+    key = "C06/ring/%s/%s" % (case["entry"], wt)
+    events = [judge("derivative/jvp-equals-finite-difference-with-degenerate-one-body-levels", best / max(1.0, abs(float(d0))), 2e-7, key + "/jvp-vs-fd",
+                    jvp=float(d0), fd={str(k): v for k, v in fds.items()}, levels=w_.tolist())]
+    return {"events": events, "nontrivial": abs(float(d0)) > 1e-8, "sample": {"wt": wt, "entry": case["entry"], "jvp": float(d0), "fd": fds["richardson"]},
+            "counters": {"vjp_calls": 0, "jvp_calls": 1, "one_body_limit": 0, "fd_evals": 4, "ring_derivatives": 1}}
 
 
 def run_rdm2site(case):
@@ -470,4 +534,4 @@ def run_rdm2(case):
 
 
 def run_case(case):
-    return {"deriv": run_deriv, "rdm2": run_rdm2, "rdm2site": run_rdm2site, "driverobs": run_driverobs}[case["type"]](case)
+    return {"deriv": run_deriv, "rdm2": run_rdm2, "rdm2site": run_rdm2site, "driverobs": run_driverobs, "ringderiv": run_ringderiv}[case["type"]](case)
